@@ -120,7 +120,7 @@ class World:
                 conns[0][1][1] = scope
             upd = [[[mn, p] for mn, p in (rng.choice(inside) for _ in range(rng.randint(3, 6)))] for _ in range(len(upd))]
             return {'conns': conns, 'updaters': upd, 'shared': len(upd) > 1, 'contended': scope}
-        return {'conns': conns, 'updaters': upd, 'shared': shared}
+        return {'conns': conns, 'updaters': upd, 'shared': shared, 'coarse_ts': (not shared) and rng.random() < 0.25}
 
     # ---------------------------------------------------------------- one run
     def run(self, scen, strategy, seed):
@@ -151,7 +151,11 @@ class World:
                 if shared:
                     v += (u + 1) * 100000
                 s.log('chg-call', mn, p, v)
-                setattr(mods[mn], p, v)
+                if scen.get('coarse_ts'):
+                    # the driver forwards the coarse time stamp of its instrument: several values carry the same one
+                    mods[mn].announceUpdate(p, v, timestamp=D.T0 + 1 + version[(mn, p, u if shared else None)] // 3)
+                else:
+                    setattr(mods[mn], p, v)
                 s.log('chg-ret', mn, p, v)
 
         def client(c):
